@@ -963,7 +963,7 @@ PROPS = {
     ),
     "C19": dict(
         retry_on_failure=True,
-        suites=["c19"],
+        suites=["c19", "c19live"],
         judge=judge_c19,
         level="proof",
         exhaustive=True,
@@ -973,13 +973,18 @@ PROPS = {
              "under the paused clock: they must stay up before the submission, wind down after it, and completion() must return; and one "
              "idle participant of every kind (tunnel h1/h2, ping h1/h2, speedtest h1/h2, reverse proxy h1, the metrics listener, none) "
              "through its real handler: completion() must stay pending while it is alive, it must wind down on submit, and completion() "
-             "must then return",
+             "must then return."
+             " Live (suite c19live, wall clock): 2 (thorough 6) rounds on the real Core::listen (TCP + QUIC) with 1-3 HTTP/3 sessions "
+             "(every other one with an open CONNECT tunnel) and a TCP connection that has not sent its ClientHello: nothing is closed "
+             "during 300 ms before the submission; after it every QUIC connection must be closed by the endpoint within 5 s, "
+             "completion() must return within 10 s, and a new session must not be served afterwards",
         explanation="theorems registered_before_submit_observes, waiting_participant_is_woken, no_submit_no_notification, "
                     "completion_iff_all_finished, completion_stable, late_registration_gets_no_guard about TT/Model/Shutdown.lean",
         trusted=["tokio broadcast (capacity 1, lag) and mpsc close semantics as modelled",
                  "process exit in endpoint/src/main.rs and the std Mutex held across completion().await (a registration arriving while "
                  "completion() is awaited blocks its thread) are not modelled",
-                 "the HTTP/3 variants of the handlers and the core's accept loops use the same select pattern (read, not driven here)"],
+                 "which branch a tokio::select! takes when several are ready is outside the model (that is where the HTTP/3 defect of "
+                 "section 6 was); the live suite samples it"],
         assumptions=[],
     ),
     "C18": dict(
